@@ -26,11 +26,12 @@ RetOK(e, r) ==
     [] OTHER -> TRUE
 TypeOK(p) ==
   LET nm == Len(p.index)  np == Len(p.pproj) IN
-  /\ Len(p.slots) = 2 /\ Len(p.pats) = 2 /\ Len(p.parent) = nm /\ Len(p.nmod) = np
+  /\ Len(p.slots) = 2 /\ Len(p.pats) = 2 /\ Len(p.parent) = nm /\ Len(p.nmod) = np /\ Len(p.output) = 2
+  /\ \A P \in 1..2 : p.output[P] \in 0..nm
   /\ \A P \in 1..2 : (\A i \in 1..Len(p.slots[P]) : p.slots[P][i] \in 0..nm) /\ (\A i \in 1..Len(p.pats[P]) : p.pats[P][i] \in 0..np)
   /\ \A m \in 1..nm : p.parent[m] \in 0..2 /\ p.index[m] >= -1
   /\ \A q \in 1..np : p.pproj[q] \in 0..2 /\ p.nmod[q] >= 0
-Norm(p) == [slots |-> p.slots, index |-> p.index, parent |-> p.parent, pats |-> p.pats, pproj |-> p.pproj, nmod |-> p.nmod]
+Norm(p) == [slots |-> p.slots, index |-> p.index, parent |-> p.parent, output |-> p.output, pats |-> p.pats, pproj |-> p.pproj, nmod |-> p.nmod]
 Step ==
   /\ l <= Len(Traces[tid].events)
   /\ LET e == Ev IN
